@@ -13,7 +13,7 @@ TRUSTED_COMMON = [
 
 PROPS = {
     "C15": {
-        "modules": ["CM.Props.C15", "CM.Props.C15Rec"],
+        "modules": ["CM.Props.C15", "CM.Props.C15Rec", "CM.Props.C15URI"],
         "level": "proof",
         "design_ref": "DESIGN.md §6 C15",
         "technique": "Lean 4 theorems over definitions regenerated from the Go source (decide +kernel over all 256 bytes; induction over lines) + line-protocol correspondence + spec oracle",
